@@ -71,7 +71,14 @@ fn run(sc: &'static Scenario, bound: Option<usize>) {
             .map(|(t, heights)| {
                 loom::thread::spawn(move || {
                     for &h in heights.iter() {
-                        let got = extracted::ask(h);
+                        let got = match std::panic::catch_unwind(|| extracted::ask(h)) {
+                            Ok(g) => g,
+                            Err(e) => {
+                                let msg = e.downcast_ref::<String>().cloned().or_else(|| e.downcast_ref::<&str>().map(|s| s.to_string())).unwrap_or_default();
+                                println!("LOOMLAB-PANIC scenario={} thread={} height={} message={}", name, t, h, msg);
+                                std::panic::resume_unwind(e);
+                            }
+                        };
                         let want = reference(h);
                         if got != want {
                             println!("LOOMLAB-MISMATCH scenario={} thread={} height={} got={} want={}", name, t, h, got, want);
